@@ -240,17 +240,29 @@ fn send_request_failed_error(
     }))
 }
 
+/// Converts a byte offset into `line` to an LSP column, which the protocol
+/// measures in UTF-16 code units.
+fn utf16_column(line: &str, byte_offset: usize) -> u32 {
+    line.char_indices()
+        .take_while(|(index, _)| *index < byte_offset)
+        .map(|(_, c)| c.len_utf16() as u32)
+        .sum()
+}
+
 fn get_semantic_tokens(analyzer: &SourceFileAnalyzer) -> SemanticTokens {
     let mut data: Vec<SemanticToken> = vec![];
     let mut prev_line_number = 0;
+    let lines = analyzer.source_file_lines();
     for (line_number, line) in analyzer.token_types().iter().enumerate() {
+        let line_text = lines.get(line_number).map(|l| l.as_str()).unwrap_or("");
         let mut prev_token_start = 0;
         for (abasic_token_type, range) in line {
             let delta_line = (line_number - prev_line_number) as u32;
             prev_line_number = line_number;
-            let delta_start = (range.start - prev_token_start) as u32;
-            prev_token_start = range.start;
-            let length = range.len() as u32;
+            let token_start = utf16_column(line_text, range.start);
+            let delta_start = token_start - prev_token_start;
+            prev_token_start = token_start;
+            let length = utf16_column(line_text, range.end) - token_start;
             let token_type = abasic_token_type_to_lsp_token_type(*abasic_token_type);
             data.push(SemanticToken {
                 delta_line,
@@ -272,11 +284,13 @@ fn analyze_source_file(analyzer: &SourceFileAnalyzer) -> Vec<Diagnostic> {
     let messages = analyzer.messages();
     let mut diagnostics: Vec<Diagnostic> = vec![];
     let source_map = analyzer.source_file_map();
+    let lines = analyzer.source_file_lines();
     for message in messages {
         if let Some((line, range)) = source_map.map_to_source(&message) {
+            let line_text = lines.get(line).map(|l| l.as_str()).unwrap_or("");
             let diag_range = Range::new(
-                Position::new(line as u32, range.start as u32),
-                Position::new(line as u32, range.end as u32),
+                Position::new(line as u32, utf16_column(line_text, range.start)),
+                Position::new(line as u32, utf16_column(line_text, range.end)),
             );
             let (severity, content) = match message {
                 DiagnosticMessage::Warning(_line, _loc, msg) => {
